@@ -92,57 +92,97 @@ func variants(thorough bool) []variant {
 			o.Spec.Servers = srv(x.eps...)
 			o.Spec.DispatchPolicies[0].UpstreamSubset = nil
 		})
+		if len(x.eps) == 0 {
+			continue
+		}
+		// the same lists with the `disabled` flag in play: a disabled server is still parsed, given a transport and
+		// counted for the scheme by the data plane, so the flag excuses nothing
+		for _, mode := range []string{"flag=false", "all disabled", "disabled after a good one", "disabled before a good one"} {
+			mode := mode
+			reject := x.reject
+			if reject == "" && strings.Contains(mode, "good one") && strings.HasPrefix(x.eps[0], "http://") {
+				reject = "mixed schemes"
+			}
+			add("servers", x.label+" ("+mode+")", reject, func(o *proxyv1alpha1.UpstreamCluster) {
+				listed := srv(x.eps...)
+				yes, no := true, false
+				for i := range listed {
+					if mode == "flag=false" {
+						listed[i].Disabled = &no
+					} else {
+						listed[i].Disabled = &yes
+					}
+				}
+				good := srv("https://good:9")
+				switch mode {
+				case "disabled after a good one":
+					listed = append(good, listed...)
+				case "disabled before a good one":
+					listed = append(listed, good...)
+				}
+				o.Spec.Servers = listed
+				o.Spec.DispatchPolicies[0].UpstreamSubset = nil
+			})
+		}
 	}
 	// ---- clientConfig (https base)
 	nums := []int32{-1, 0, 1, 5}
-	for _, insecure := range []bool{true, false} {
-		for _, token := range []string{"", "t"} {
-			for _, kp := range []string{"none", "key-only", "cert-only", "pair", "garbage-pair", "mismatched-pair"} {
-				for _, ca := range []string{"none", "ok", "garbage"} {
-					qs := [][3]int32{{0, 0, 0}}
-					if token == "t" && kp == "none" && ca == "none" {
-						qs = nil
-						for _, q := range nums {
-							for _, b := range nums {
-								for _, d := range nums {
-									qs = append(qs, [3]int32{q, b, d})
+	for _, allDisabled := range []bool{false, true} {
+		for _, insecure := range []bool{true, false} {
+			for _, token := range []string{"", "t"} {
+				for _, kp := range []string{"none", "key-only", "cert-only", "pair", "garbage-pair", "mismatched-pair"} {
+					for _, ca := range []string{"none", "ok", "garbage"} {
+						qs := [][3]int32{{0, 0, 0}}
+						if token == "t" && kp == "none" && ca == "none" {
+							qs = nil
+							for _, q := range nums {
+								for _, b := range nums {
+									for _, d := range nums {
+										qs = append(qs, [3]int32{q, b, d})
+									}
 								}
 							}
 						}
-					}
-					for _, q := range qs {
-						insecure, token, kp, ca, q := insecure, token, kp, ca, q
-						reject := ""
-						switch {
-						case kp == "garbage-pair" || kp == "mismatched-pair" || kp == "key-only" || kp == "cert-only":
-							reject = "unusable client key/certificate"
-						case ca == "garbage":
-							reject = "unusable CA data"
-						case q[0] < 0 || q[1] < 0 || q[2] < 0:
-							reject = "negative client limits"
+						for _, q := range qs {
+							insecure, token, kp, ca, q, allDisabled := insecure, token, kp, ca, q, allDisabled
+							reject := ""
+							switch {
+							case kp == "garbage-pair" || kp == "mismatched-pair" || kp == "key-only" || kp == "cert-only":
+								reject = "unusable client key/certificate"
+							case ca == "garbage":
+								reject = "unusable CA data"
+							case q[0] < 0 || q[1] < 0 || q[2] < 0:
+								reject = "negative client limits"
+							}
+							add("clientConfig", fmt.Sprintf("insecure=%v token=%q keypair=%s ca=%s qps/burst/div=%v allServersDisabled=%v", insecure, token, kp, ca, q, allDisabled), reject, func(o *proxyv1alpha1.UpstreamCluster) {
+								if allDisabled {
+									yes := true
+									for i := range o.Spec.Servers {
+										o.Spec.Servers[i].Disabled = &yes
+									}
+								}
+								cc := proxyv1alpha1.ClientConfig{Insecure: insecure, BearerToken: []byte(token), QPS: q[0], Burst: q[1], QPSDivisor: q[2]}
+								switch kp {
+								case "key-only":
+									cc.KeyData = mat.KeyPEM
+								case "cert-only":
+									cc.CertData = mat.CertPEM
+								case "pair":
+									cc.KeyData, cc.CertData = mat.KeyPEM, mat.CertPEM
+								case "garbage-pair":
+									cc.KeyData, cc.CertData = garbage, garbage
+								case "mismatched-pair":
+									cc.KeyData, cc.CertData = mat2.KeyPEM, mat.CertPEM
+								}
+								switch ca {
+								case "ok":
+									cc.CAData = mat.CAPEM
+								case "garbage":
+									cc.CAData = garbage
+								}
+								o.Spec.ClientConfig = cc
+							})
 						}
-						add("clientConfig", fmt.Sprintf("insecure=%v token=%q keypair=%s ca=%s qps/burst/div=%v", insecure, token, kp, ca, q), reject, func(o *proxyv1alpha1.UpstreamCluster) {
-							cc := proxyv1alpha1.ClientConfig{Insecure: insecure, BearerToken: []byte(token), QPS: q[0], Burst: q[1], QPSDivisor: q[2]}
-							switch kp {
-							case "key-only":
-								cc.KeyData = mat.KeyPEM
-							case "cert-only":
-								cc.CertData = mat.CertPEM
-							case "pair":
-								cc.KeyData, cc.CertData = mat.KeyPEM, mat.CertPEM
-							case "garbage-pair":
-								cc.KeyData, cc.CertData = garbage, garbage
-							case "mismatched-pair":
-								cc.KeyData, cc.CertData = mat2.KeyPEM, mat.CertPEM
-							}
-							switch ca {
-							case "ok":
-								cc.CAData = mat.CAPEM
-							case "garbage":
-								cc.CAData = garbage
-							}
-							o.Spec.ClientConfig = cc
-						})
 					}
 				}
 			}
@@ -431,7 +471,9 @@ func applyControllerAndLimiter(o *proxyv1alpha1.UpstreamCluster) (where, what st
 		if err != nil {
 			return "limiter-report-error", err.Error()
 		}
-		if p := kit.Try(func() { _, err = lr.L.DoAcquire(o.Name, limrig.Acquire(o.Name, "gw1", s.Name, time.Now().UnixNano(), 1)) }); p != "" {
+		if p := kit.Try(func() {
+			_, err = lr.L.DoAcquire(o.Name, limrig.Acquire(o.Name, "gw1", s.Name, time.Now().UnixNano(), 1))
+		}); p != "" {
 			return "limiter-acquire-panic", p
 		}
 		if err != nil {
